@@ -217,6 +217,16 @@ def run(ctx):
                    ok, loc=loc(add, adv[0].node), path=p.describe() if not ok else None)
     if n_adv == 0:
         ctx.unknown('T9.bucket', add.fq, 'no advance of _cur_bucket found on any path of add', add.loc)
+    # T9.countfirst: the addition being made is counted before the bucket it closes is compacted (a key that survives only
+    # thanks to this very addition must not be evicted first and re-enter with a fresh entry bucket)
+    for p in paths3:
+        flt = [o for o in p.ops if o.kind == 'attr_store' and txt(o.val) == 'self._count_map']
+        cnt = [o for o in p.ops if (o.kind == 'aug' and '_count_map' in txt(o.node.target)) or
+               (o.kind == 'sub_store' and '_count_map' in txt(o.val.value))]
+        if flt and cnt:
+            ok = min(o.seq for o in cnt) < flt[0].seq
+            ctx.ob('T9.countfirst', add.fq, 'the key is counted before the closing bucket is compacted', ok, loc=loc(add, flt[0].node),
+                   path=p.describe() if not ok else None)
     # compaction predicate depends on both components (searched in add and the private helpers only add reaches)
     scope = [add] + [m for nm, m in ci.members.items() if isinstance(m, FuncInfo) and nm.startswith('_') and not nm.startswith('__')
                      and owned(nm) and nm not in ('__init__',)]
